@@ -6,6 +6,7 @@
 package main
 
 import (
+	"bytes"
 	"context"
 	"encoding/hex"
 	"encoding/json"
@@ -98,6 +99,10 @@ type Case struct {
 	// while a large file is being hashed with the hasher the case then keeps
 	// using (an endpoint reuses one hasher for all its scans).
 	Abort bool `json:"abort,omitempty"`
+	// MidHash: an in-place rewrite (same size, other content, new mtime) applied
+	// to a file while the initial scan is hashing it; its path is among the
+	// recheck paths of the first batch.
+	MidHash *Op `json:"midhash,omitempty"`
 }
 
 var fixed16 bool
@@ -428,6 +433,23 @@ func (r result) coq() string {
 		b2s(s.DecomposesUnicode), s.Directories, s.Files, s.SymbolicLinks, s.TotalFileSize, cacheCoq(r.c), icacheCoq(r.ic))
 }
 
+// editingHasher runs an edit the first time the content of the chosen file
+// flows into the hasher, i.e. while the scanner is hashing that file.
+type editingHasher struct {
+	hash.Hash
+	target []byte
+	fire   func()
+	fired  bool
+}
+
+func (h *editingHasher) Write(data []byte) (int, error) {
+	if !h.fired && bytes.Equal(data, h.target) {
+		h.fired = true
+		h.fire()
+	}
+	return h.Hash.Write(data)
+}
+
 // cancellingHasher cancels a context as soon as data flows into the hasher.
 type cancellingHasher struct {
 	hash.Hash
@@ -626,7 +648,31 @@ func runCase(c Case) (out outcome, err error) {
 	// C13
 	r := c.Runs[0]
 	setBehavior(r)
-	res0 := scan(hasher, root, nil, nil, ign, r)
+	var firstHasher hash.Hash = hasher
+	var editor *editingHasher
+	var midErr error
+	if c.MidHash != nil {
+		target, err := os.ReadFile(rel(root, c.MidHash.Path))
+		if err != nil {
+			return out, fmt.Errorf("mid-hash target: %w", err)
+		}
+		editor = &editingHasher{Hash: hasher, target: target, fire: func() { midErr = b.apply(root, *c.MidHash) }}
+		firstHasher = editor
+	}
+	res0 := scan(firstHasher, root, nil, nil, ign, r)
+	if editor != nil {
+		if editor.fired {
+			tags = append(tags, "midhash:during-hashing")
+		} else {
+			// the file was not hashed (ignored, below an ignored directory):
+			// the edit still belongs to the first batch
+			midErr = b.apply(root, *c.MidHash)
+			tags = append(tags, "midhash:not-hashed")
+		}
+		if midErr != nil {
+			return out, fmt.Errorf("mid-hash edit: %w", midErr)
+		}
+	}
 	pres, dec := !r.NoPreserve, false
 	if res0.snap != nil && res0.err == nil && res0.snap.Content != nil {
 		pres, dec = res0.snap.PreservesExecutability, res0.snap.DecomposesUnicode
@@ -823,7 +869,7 @@ func join(dir, name string) string {
 
 // batch generates a random edit batch against the current state of the real
 // tree (obtained by walking it) and applies nothing itself.
-func (g *gen) batch(root string) (Batch, error) {
+func (g *gen) batch(root string, pre []string) (Batch, error) {
 	w, err := walk(root)
 	if err != nil {
 		return Batch{}, err
@@ -852,6 +898,10 @@ func (g *gen) batch(root string) (Batch, error) {
 	}
 	var bt Batch
 	touched := map[string]bool{}
+	for _, p := range pre {
+		touched[p] = true
+		bt.Recheck = append(bt.Recheck, HS(p))
+	}
 	under := func(p string) bool {
 		for t := range touched {
 			if p == t || strings.HasPrefix(p, t+"/") || strings.HasPrefix(t, p+"/") {
@@ -1018,8 +1068,35 @@ func (g *gen) genC13() (Case, error) {
 	if err := b.create("", &spec); err != nil {
 		return c, err
 	}
+	var pre []string
+	if g.r.Intn(3) == 0 {
+		// an edit that happens while the initial scan hashes the file
+		if w, err := walk(root); err == nil {
+			var cands []string
+			for _, o := range w.objs {
+				if o.kind == "file" && o.path != "" {
+					if d, err := os.ReadFile(rel(root, HS(o.path))); err == nil && len(d) >= 4 && len(d) < 32*1024 {
+						cands = append(cands, o.path)
+					}
+				}
+			}
+			if len(cands) > 0 {
+				p := g.pick(cands)
+				old, _ := os.ReadFile(rel(root, HS(p)))
+				nd := append([]byte{}, old...)
+				nd[g.r.Intn(len(nd))] ^= 0x21
+				op := Op{Op: "write", Path: HS(p), Data: HS(nd)}
+				if err := b.apply(root, op); err != nil {
+					return c, err
+				}
+				c.MidHash = &op
+				pre = []string{p}
+			}
+		}
+	}
 	for i, n := 0, 1+g.r.Intn(3); i < n; i++ {
-		bt, err := g.batch(root)
+		bt, err := g.batch(root, pre)
+		pre = nil
 		if err != nil {
 			return c, err
 		}
@@ -1050,7 +1127,7 @@ func main() {
 	if *prop == "C12" {
 		w.Rule = "a case = one real directory tree (independent lstat/readlink/read walk), the digest and ignore tables, and the results of core.Scan under 3 configurations drawn from 3 symlink modes x 2 permissions modes (one of them with executability preservation forced off through the behaviour cache); all scans of a case share one hasher, and in a quarter of the cases a scan of another root is first cancelled while that hasher is hashing a 64 MiB sparse file; distinct = distinct Coq terms; non-trivial = at least 4 filesystem objects"
 	} else {
-		w.Rule = "a case = one real directory tree, one configuration, 1-3 random edit batches (write/same-size rewrite with an older mtime/replace/replace keeping size and mtime/chmod/touch/create/remove/retype/rename/empty-directory swap) each followed by core.Scan with the previous result as baseline + recheck paths and by a fresh core.Scan; non-trivial = at least one batch and at least 4 objects"
+		w.Rule = "a case = one real directory tree, one configuration, 1-3 random edit batches (write/same-size rewrite with an older mtime/replace/replace keeping size and mtime/chmod/touch/create/remove/retype/rename/empty-directory swap) in a third of the cases (when a suitable file exists) one file is also rewritten in place while the initial scan is hashing it (through the shared hasher), its path being reported with the first batch; each batch is followed by core.Scan with the previous result as baseline + recheck paths and by a fresh core.Scan; non-trivial = at least one batch and at least 4 objects"
 	}
 	add := func(c Case, origin string) {
 		if w.Aborted {
